@@ -128,6 +128,45 @@ fn with_helpers(s: &mut Src, base: &Prog, need_non_main: bool) -> Option<Helpers
     Some(Helpers { prog, p, decl, ht, hi, ha, hb, ht1, ht2 })
 }
 
+/// A declared procedure with at least `min` parameters whose reference parameters can all be
+/// served from the helper variables (int or the helper array type), that is not hidden by a local
+/// of the target procedure. Returns (index, valid argument list).
+fn callable_user_proc(s: &mut Src, h: &Helpers, min: usize) -> Option<(usize, Vec<Expr>)> {
+    let target = &h.prog.procs[h.p];
+    let hidden = |n: &str| target.params.iter().chain(target.locals.iter()).any(|v| v.name == n);
+    let ht_ty = Ty::Arr { size: 2, base: Box::new(Ty::Int), creator: h.ht.clone() };
+    let mut cands = Vec::new();
+    for (j, p) in h.prog.procs.iter().enumerate() {
+        if p.name == "main" || p.params.len() < min || hidden(&p.name) {
+            continue;
+        }
+        if !h.prog.order.contains(&Decl::Proc(j)) {
+            continue;
+        }
+        let mut args = Vec::new();
+        let mut ok = true;
+        for prm in &p.params {
+            if prm.ty.is_int() {
+                args.push(if prm.is_ref { Expr::Var(local_var(h, &h.hi)) } else { int_lit(5) });
+            } else if prm.ty == ht_ty {
+                args.push(Expr::Var(local_var(h, &h.ht1)));
+            } else {
+                ok = false;
+                break;
+            }
+        }
+        if ok {
+            cands.push((j, args));
+        }
+    }
+    if cands.is_empty() {
+        None
+    } else {
+        let k = s.below(cands.len());
+        Some(cands.swap_remove(k))
+    }
+}
+
 fn local_var(h: &Helpers, name: &str) -> Var {
     let k = h.prog.procs[h.p].locals.iter().position(|l| l.name == name).unwrap();
     Var::Name(name.to_string(), Bind::Local(h.p, k))
@@ -428,7 +467,21 @@ pub fn inject(s: &mut Src, base: &Prog, kind: usize) -> Option<Fault> {
                     if is_local(&h, "printi") || is_local(&h, "setPixel") {
                         return None;
                     }
-                    if s.chance(1, 2) {
+                    let user = if s.chance(1, 2) { callable_user_proc(s, &h, 1) } else { None };
+                    if let Some((j, mut args)) = user {
+                        // one argument of the wrong type: an array where an int is expected, or an
+                        // array of another type where the helper array type is expected
+                        let k = s.below(args.len());
+                        let prm = &h.prog.procs[j].params[k];
+                        args[k] = if prm.ty.is_int() { ev(&ha) } else { ev(&hb) };
+                        let name = h.prog.procs[j].name.clone();
+                        (
+                            Stmt::Call(name.clone(), Bind::Proc(j), args),
+                            format!("procedure `{}` argument `{}` type mismatch", name, k + 1),
+                            vec![1 + k],
+                            false,
+                        )
+                    } else if s.chance(1, 2) {
                         (
                             Stmt::Call("printi".into(), Bind::BuiltinProc(0), vec![ev(&ha)]),
                             "procedure `printi` argument `1` type mismatch".into(),
@@ -451,6 +504,22 @@ pub fn inject(s: &mut Src, base: &Prog, kind: usize) -> Option<Fault> {
                     if is_local(&h, "readi") {
                         return None;
                     }
+                    // a reference parameter of type int of a declared procedure, if there is one
+                    let user = if s.chance(1, 2) { callable_user_proc(s, &h, 1) } else { None };
+                    let user = user.and_then(|(j, args)| {
+                        let refs: Vec<usize> = h.prog.procs[j].params.iter().enumerate().filter(|(_, p)| p.is_ref && p.ty.is_int()).map(|(k, _)| k).collect();
+                        if refs.is_empty() { None } else { Some((j, args, refs)) }
+                    });
+                    if let Some((j, mut args, refs)) = user {
+                        let k = refs[s.below(refs.len())];
+                        args[k] = Expr::Bin("*", Box::new(ev(&hi)), Box::new(int_lit(2)));
+                        let name = h.prog.procs[j].name.clone();
+                        let stmt = Stmt::Call(name.clone(), Bind::Proc(j), args);
+                        let stmt = normalize_stmt(stmt);
+                        let mut path = place_stmt(s, &mut h, stmt);
+                        path.push(1 + k);
+                        return done(h.prog, format!("procedure `{}` argument `{}` must be a variable", name, k + 1), vec![path], false);
+                    }
                     let a = match s.below(3) {
                         0 => Expr::Bin("+", Box::new(int_lit(1)), Box::new(int_lit(2))),
                         1 => int_lit(7),
@@ -467,7 +536,12 @@ pub fn inject(s: &mut Src, base: &Prog, kind: usize) -> Option<Fault> {
                     if is_local(&h, "printi") || is_local(&h, "drawLine") {
                         return None;
                     }
-                    if s.chance(1, 2) {
+                    let user = if s.chance(1, 2) { callable_user_proc(s, &h, 1) } else { None };
+                    if let Some((j, mut args)) = user {
+                        args.pop();
+                        let name = h.prog.procs[j].name.clone();
+                        (Stmt::Call(name.clone(), Bind::Proc(j), args), format!("procedure `{}` called with too few arguments", name), vec![], false)
+                    } else if s.chance(1, 2) {
                         (Stmt::Call("printi".into(), Bind::BuiltinProc(0), vec![]), "procedure `printi` called with too few arguments".into(), vec![], false)
                     } else {
                         (
@@ -482,7 +556,12 @@ pub fn inject(s: &mut Src, base: &Prog, kind: usize) -> Option<Fault> {
                     if is_local(&h, "exit") || is_local(&h, "printc") {
                         return None;
                     }
-                    if s.chance(1, 2) {
+                    let user = if s.chance(1, 2) { callable_user_proc(s, &h, 0) } else { None };
+                    if let Some((j, mut args)) = user {
+                        args.push(int_lit(9));
+                        let name = h.prog.procs[j].name.clone();
+                        (Stmt::Call(name.clone(), Bind::Proc(j), args), format!("procedure `{}` called with too many arguments", name), vec![], false)
+                    } else if s.chance(1, 2) {
                         (Stmt::Call("exit".into(), Bind::BuiltinProc(4), vec![int_lit(1)]), "procedure `exit` called with too many arguments".into(), vec![], false)
                     } else {
                         (
